@@ -25,6 +25,12 @@ fn nt_c04(_p: &Plan, o: &RunOut) -> bool {
 fn nt_c05(_p: &Plan, o: &RunOut) -> bool {
     faults_fired(o) >= 1
 }
+fn nt_c07(p: &Plan, o: &RunOut) -> bool {
+    o.probes.frames_first >= 20 && (o.probes.events.get("disconnected").copied().unwrap_or(0) >= 1 || !p.api.is_empty())
+}
+fn nt_c12(_p: &Plan, o: &RunOut) -> bool {
+    o.probes.events.get("synchronized").copied().unwrap_or(0) >= 1 && (faults_fired(o) >= 1 || o.counters.injected >= 1)
+}
 fn nt_c13(p: &Plan, o: &RunOut) -> bool {
     matches!(p.mode, crate::plan::Mode::SyncTest { expect_reject: false, .. }) && o.probes.frames_first >= 20
 }
@@ -85,6 +91,28 @@ PropSpec {
     nontrivial: nt_c05,
     required_probes: &["drop_explicit", "duplicate_explicit", "delay_explicit", "drop_window", "spectator_frames", "stalls_lockstep", "sealed_frames"],
     assumptions: &["liveness is demanded only after the last injected fault, of sessions that are ticked regularly", "3 s = 15 retry periods of 200 ms", "fault windows stay below the disconnect timeout and below the 128-input cap towards spectators: beyond that a disconnect is the specified outcome"],
+},
+PropSpec {
+    id: "C07",
+    level: "exploration",
+    quick_runs: 20_000,
+    thorough_runs: 400_000,
+    default_seed: 707,
+    rule: "two peers with 1-2 players each, optional spectator on the survivor, windows 0..=12, delays, sparse on/off, timeouts 300-3000 ms, notify 100-800 ms, survivor tick period 4-40 ms, per-packet loss/duplication; the victim stops at a seeded instant (handshake included), some of its last packets are lost, the survivor may be paused around the death; in 30 % of the runs disconnect_player is called instead. Oracles: poll-by-poll comparison of NetworkInterrupted/NetworkResumed/Disconnected with a two-timer reference model on exact virtual timestamps, C01's timeline check with the accessor's (disconnected, last_frame), the spectator-stream check, liveness of the survivor after the disconnect. Non-trivial = a Disconnected event or API disconnect happened with >= 20 frames simulated; distinct = distinct executed-schedule hash",
+    nontrivial: nt_c07,
+    required_probes: &["disconnected", "network_interrupted", "api_calls", "spectator_frames", "rollbacks", "stalls_lockstep"],
+    assumptions: BASE_ASSUME,
+},
+PropSpec {
+    id: "C12",
+    level: "exploration",
+    quick_runs: 20_000,
+    thorough_runs: 400_000,
+    default_seed: 1212,
+    rule: "60 % handshake stress (2-3 peers, 0-2 spectators, loss up to 40 %, duplication up to 20 %, latency 0-300 ms with 100 % jitter, poll cadences 1-400 ms, never-drained sessions, stray SyncReplies with never-sent nonces from the right address and from strangers), 30 % silences around the notify delay and the timeout (+-200 ms) on a two-peer link, 10 % quiet pairs (two sessions that merely poll for 60 simulated seconds). Oracles: per-address event grammar automaton, handshake accounting (a reply matches iff its nonce was sent to that address and not matched before; Running iff every address has 5 matches; NotSynchronized iff not Running), poll-by-poll timer model, event queue <= 100. Non-trivial = >= 1 handshake completed and >= 1 fault or silence fired; distinct = distinct executed-schedule hash",
+    nontrivial: nt_c12,
+    required_probes: &["synchronized", "network_interrupted", "network_resumed", "disconnected", "drop_random", "duplicate_random", "injected_datagrams", "calls_not_synchronized"],
+    assumptions: BASE_ASSUME,
 },
 PropSpec {
     id: "C13",
